@@ -149,6 +149,7 @@ inductive Expr
   | field (e : Expr) (i : Nat)
   | list (es : Exprs)
   | fstr (ps : Parts)
+  | concat (l r : Expr)                  -- `l + r` on strings (`String.append`)
 inductive Exprs
   | nil
   | cons (e : Expr) (es : Exprs)
@@ -455,6 +456,12 @@ def evalExpr (fns : List FnDef) : Nat → Env → Expr → R (Env × Val)
     | .fstr ps => do
       let (env, s) ← evalParts fns n env ps
       pure (env, .str s)
+    | .concat l r => do
+      let (env, a) ← evalExpr fns n env l
+      let (env, b) ← evalExpr fns n env r
+      match a, b with
+      | .str x, .str y => pure (env, .str (x ++ y))
+      | _, _ => .stuck "+ on non-strings"
 
 /-- left to right -/
 def evalArgs (fns : List FnDef) : Nat → Env → Exprs → R (Env × List Val)
